@@ -99,6 +99,15 @@ M = [
     ("m66", "C15", "src/production/connection_optimized.rs", "            RespValue::Array(None) => {\n                buf.extend_from_slice(b\"*-1\\r\\n\");\n            }", "            RespValue::Array(None) => {\n                buf.extend_from_slice(b\"$-1\\r\\n\");\n            }", r"R15\.10"),
     ("m67", "C15", "src/redis/resp_optimized.rs", "            let len = len as usize;\n            let start = pos + 2;", "            if len == 0 {\n                return Ok((RespValueZeroCopy::BulkString(Some(Bytes::new())), pos + 4));\n            }\n            let len = len as usize;\n            let start = pos + 2;", r"R15\.5"),
     ("m68", "C02", "src/production/sharded_actor.rs", "            shard_batches[shard_idx].push((idx, key.clone()));", "            if idx % 1024 == 1023 {\n                continue;\n            }\n            shard_batches[shard_idx].push((idx, key.clone()));", r"R02\.7"),
+    ("m69", "C01", "src/redis/data/sorted_set.rs", "            (len + stop).max(-1)\n        } else {\n            stop.min(len - 1)\n        };\n\n        if start > stop || start >= len {\n            return Vec::new();\n        }\n\n        self.skiplist\n            .range(",
+     "            (len + stop).max(0)\n        } else {\n            stop.min(len - 1)\n        };\n\n        if start > stop || start >= len {\n            return Vec::new();\n        }\n\n        self.skiplist\n            .range(", r"R01\.9:window-bounds"),
+    ("m70", "C02", "src/production/response_pool.rs", "        let mut state = self.state.lock();\n        state.value = None;\n        state.waker = None;", "        let mut state = self.state.lock();\n        state.waker = None;", r"R02\.8:reset"),
+    ("m71", "C02", "src/production/response_pool.rs", "        // Reset the slot for reuse\n        slot.reset();\n", "", r"R02\.8:release:pooled-slot-is-clean"),
+    ("m72", "C02", "src/production/response_pool.rs", "        let mut state = self.slot.state.lock();\n\n        // Try to take the value\n        if let Some(value) = state.value.take() {\n            return Poll::Ready(value);\n        }\n",
+     "        if let Some(value) = self.slot.state.lock().value.take() {\n            return Poll::Ready(value);\n        }\n        let mut state = self.slot.state.lock();\n", r"R02\.8:poll"),
+    ("m73", "C04", "src/production/connection_pool.rs", "        buf.clear();\n        if buf.capacity() <= self.capacity * 2 {", "        if buf.capacity() <= self.capacity * 2 {", r"R04\.9"),
+    ("m74", "C05", "src/production/connection_optimized.rs", "                                            .execute(&Command::Get(key.clone()))\n                                            .await;\n                                        if !resp_values_equal(&current, old_value) {",
+     "                                            .execute(&Command::Exists(vec![key.clone()]))\n                                            .await;\n                                        if !resp_values_equal(&current, old_value) {", r"R05\.8"),
 ]
 
 
@@ -106,9 +115,11 @@ def for_property(prop):
     return [m for m in M if m[1] == prop]
 
 
-def run_mutants(prop, jobs=1):
+def run_mutants(prop, jobs=1, only=None):
     out = {"tried": 0, "detected": 0, "invalid": [], "survivors": [], "details": []}
     for (mid, p, rel, old, new, want) in for_property(prop):
+        if only and mid not in only:
+            continue
         src = os.path.join(facts.REPO, rel)
         text = open(src).read()
         if text.count(old) != 1:
@@ -140,3 +151,10 @@ def run_mutants(prop, jobs=1):
         finally:
             shutil.rmtree(scratch, ignore_errors=True)
     return out
+
+
+if __name__ == "__main__":
+    # python3 -m rules.mutants m69 m70 ...   (ad-hoc run of selected mutants)
+    ids = set(sys.argv[1:])
+    for prop in sorted({m[1] for m in M if m[0] in ids}):
+        print(prop, json.dumps(run_mutants(prop, only=ids), indent=1))
